@@ -1,7 +1,7 @@
-import Props.C16
+import TaskModel.Decode.Outcome
 /-! `decode.outcome ok | err <code> | panic <hex> | timeout` → `accept` iff the outcome class is one the property allows. -/
 namespace Driver.Decode
-open Props.C16
+open TaskModel.Decode
 
 def handle (op : String) (args : List String) : Option String :=
   match op, args with
